@@ -1,6 +1,6 @@
 (** Property C18 — the theorems the check counts as obligations.  Nothing but
     statements closed by [exact] and [Print Assumptions]. *)
-From HS Require Import Base.Prelude C18.Model C18.Causal C18.CRDT.
+From HS Require Import Base.Prelude C18.Model C18.Causal C18.CRDT C18.VectorIff.
 Local Open Scope Z_scope.
 
 (** a -> b  ==>  Lamport(a) < Lamport(b), every well-formed history. *)
@@ -17,13 +17,12 @@ Theorem c18_hlc_causal : forall tr ts, stamps hlc tr = Some ts ->
 Proof. exact hlc_causal. Qed.
 Print Assumptions c18_hlc_causal.
 
-(** a -> b  ==>  VC(a) < VC(b)  (the converse is not yet proved: PARTIAL for
-    the "exactly when" clause). *)
-Theorem c18_vector_causal_partial : forall tr ts, stamps vector tr = Some ts ->
-  forall i j, hb tr i j -> forall ti tj,
-  nth_error ts i = Some ti -> nth_error ts j = Some tj -> vc_lt ti tj.
-Proof. exact vector_causal. Qed.
-Print Assumptions c18_vector_causal_partial.
+(** Vector clocks order a before b EXACTLY WHEN a happened before b (both
+    directions, every well-formed history). *)
+Theorem c18_vector_iff : forall tr ts, stamps vector tr = Some ts ->
+  forall i j ti tj, nth_error ts i = Some ti -> nth_error ts j = Some tj -> (vc_lt ti tj <-> hb tr i j).
+Proof. exact vector_iff. Qed.
+Print Assumptions c18_vector_iff.
 
 Theorem c18_happened_before_decides : forall keys a b,
   (forall k, ~ In k keys -> a k = b k) -> vc_hbb keys a b = true <-> vc_lt a b.
